@@ -12,6 +12,7 @@ from sympy.physics.quantum.boson import BosonOp
 from sympy.physics.quantum.fermion import FermionOp
 from sympy.physics.quantum import pauli
 from pymablock import block_diagonalize
+from pymablock.series import zero, one
 from pymablock.number_ordered_form import NumberOrderedForm as NOF, NumberOperator, LadderOp, _number_operator_to_placeholder
 from fock import apply_gen
 from ref2 import reference
@@ -176,6 +177,70 @@ def run(label, spec, H0f, Vf, maxn, cut, patterns=None, hermitian=True):
         res.append((n, float(np.abs(hm - rHt[(n,)])[np.ix_(low, low)].max()), eu, len(low)))
     return res
 
+def run_blocks(spec, H0f, Vf, sub, fd, cut=8, maxn=3):
+    """a matrix-valued second-quantised Hamiltonian split into blocks by `subspace_indices`, `fully_diagonalize` naming none, some or all of the blocks
+    (a list of blocks, or a dict of operator-valued masks): elements between different blocks are eliminated; inside a block everything is kept unless
+    the block is listed (then all elements between different Fock levels go) or masked (then the shifts the mask names go)"""
+    spec = sorted(spec, key=lambda m: (ORDER[m[0]], m[1])); ops = [KIND[k](n) for k, n in spec]
+    d = {n: o for (k, n), o in zip(spec, ops)}; lam = sympy.Symbol('lambda', real=True)
+    H0 = H0f(d); V = Vf(d); ph = [_number_operator_to_placeholder(NumberOperator(o)) for o in ops]
+    kw = {}
+    if isinstance(fd, list): kw["fully_diagonalize"] = fd
+    elif isinstance(fd, dict): kw["fully_diagonalize"] = {b: sympy.Matrix([[sympy.Add(*[(Dagger(ops[0]) ** p if p > 0 else ops[0] ** (-p)) for p in pats])]]) for b, pats in fd.items()}
+    Ht, U, Ud = block_diagonalize(H0 + lam * V, symbols=[lam], subspace_indices=sub, **kw)
+    dim = H0.rows; nbl = max(sub) + 1
+    ranges = [range(0, cut) if m[0] == 'b' else range(0, 2) for m in spec]
+    states = list(itertools.product(*ranges)); idx = {s_: i for i, s_ in enumerate(states)}; ns = len(states)
+    def mat1(x):
+        M = np.zeros((ns, ns), dtype=complex)
+        if x == 0: return M
+        x = x if isinstance(x, NOF) and list(x.operators) == list(ops) else NOF.from_expr(sympy.sympify(x.as_expr() if isinstance(x, NOF) else x).subs(lam, 1), ops)
+        for s_ in states:
+            for t, a in nof_apply(spec, x, ops, ph, s_).items():
+                if t in idx: M[idx[t], idx[s_]] += complex(a)
+        return M
+    def mat(x):
+        M = np.zeros((dim * ns, dim * ns), dtype=complex)
+        for i in range(x.rows):
+            for j in range(x.cols): M[i * ns:(i + 1) * ns, j * ns:(j + 1) * ns] = mat1(x[i, j])
+        return M
+    rows = [[r for r in range(dim) if sub[r] == b] for b in range(nbl)]
+    def assemble(Sx, n):
+        M = np.zeros((dim * ns, dim * ns), dtype=complex)
+        for bi in range(nbl):
+            for bj in range(nbl):
+                v = Sx[bi, bj, n]
+                if v is zero: continue
+                v = sympy.eye(len(rows[bi])) if v is one else sympy.Matrix(v)
+                for a, r in enumerate(rows[bi]):
+                    for b, c_ in enumerate(rows[bj]): M[r * ns:(r + 1) * ns, c_ * ns:(c_ + 1) * ns] = mat1(v[a, b])
+        return M
+    H0m = mat(H0); Vm = mat(V); E = np.diag(H0m).real; full = [(r, s_) for r in range(dim) for s_ in states]
+    elim = np.zeros((dim * ns, dim * ns), dtype=bool)
+    for i, (r, s_) in enumerate(full):
+        for j, (c_, t) in enumerate(full):
+            if sub[r] != sub[c_]: elim[i, j] = True
+            elif isinstance(fd, list) and sub[r] in fd: elim[i, j] = abs(E[i] - E[j]) > 1e-9
+            elif isinstance(fd, dict) and sub[r] in fd: elim[i, j] = r == c_ and (s_[0] - t[0]) in fd[sub[r]] and not any(a != b for a, b in zip(s_[1:], t[1:]))
+    assert not np.any(elim & (np.abs(E.reshape(-1, 1) - E) < 1e-9)), "an eliminated pair is degenerate"
+    rHt, rU, rUi = reference({(0,): H0m, (1,): Vm}, elim, (maxn,))
+    low = [i for i, (r, s_) in enumerate(full) if all(abs(x) <= 2 for x in s_)]
+    out = []
+    for n in range(1, maxn + 1):
+        eh = float(np.abs(assemble(Ht, n) - rHt[(n,)])[np.ix_(low, low)].max())
+        eu = max(float(np.abs(assemble(U, n) - rU[(n,)])[np.ix_(low, low)].max()), float(np.abs(assemble(Ud, n) - rUi[(n,)])[np.ix_(low, low)].max()))
+        out.append((n, eh, eu, len(low)))
+    return out
+
+BLOCK_CASES = [
+ ("two blocks by subspace_indices, nothing fully diagonalised (everything inside a block is kept)", None),
+ ("two blocks, fully_diagonalize=[0]: only one of them listed", [0]),
+ ("two blocks, fully_diagonalize={0: a + a^dagger}: one block masked, the other untouched", {0: [1, -1]}),
+ ("two blocks, fully_diagonalize=[0, 1]", [0, 1]),
+]
+BLOCK_H0 = lambda d: sympy.Matrix([[2 * Dagger(d['a']) * d['a'], 0], [0, 2 * Dagger(d['a']) * d['a'] + Q(7, 3)]])
+BLOCK_V = lambda d: sympy.Matrix([[d['a'] + Dagger(d['a']) + Q(1, 2) * (d['a'] ** 2 + Dagger(d['a']) ** 2), 1 + Dagger(d['a'])], [1 + d['a'], Q(1, 3) * (d['a'] + Dagger(d['a']))]])
+
 def run_solver(label, spec, H0f, Vf, hermitian_Y, flag, cut):
     """C16: the second-quantised Sylvester solver called directly on a diagonal entry: H_ii X - X H_ii = Y as an operator identity (Fock matrices, low states)"""
     from pymablock.second_quantization import solve_sylvester_2nd_quant
@@ -250,6 +315,16 @@ def main(seed, ncases, driver, out, mode="all"):
             distinct += 1
         except Exception as e:
             failures.append({"system": label, "kind": "implementation-raises", "error": type(e).__name__ + ": " + str(e)[:150]})
+    if mode == "all":
+        for label, fd in BLOCK_CASES:
+            dist["blocks: " + label.split(",")[1].split(":")[0].strip() if "," in label else label] = 1
+            try:
+                for (n, eh, eu, nlow) in run_blocks([('b', 'a')], BLOCK_H0, BLOCK_V, [0, 1], fd):
+                    evals += 2 * nlow * nlow; worst = max(worst, eh, eu)
+                    if eh > 1e-8 or eu > 1e-8: failures.append({"system": label, "kind": "differs-from-fock-matrices", "order": n, "H_tilde_err": eh, "U_err": eu})
+                distinct += 1
+            except Exception as e:
+                failures.append({"system": label, "kind": "implementation-raises", "error": type(e).__name__ + ": " + str(e)[:150]})
     json.dump({"evaluations": evals, "cases": ncases, "distinct_nontrivial": distinct, "failures": failures, "distribution": dist,
                "samples": samples, "worst_abs_error": worst}, open(out, "w"))
 
